@@ -25,6 +25,9 @@ def main():
         prop = sid.split("-")[0]
         patch = os.path.join(V, "seeded", sid, "patch.diff")
         meta = json.load(open(os.path.join(V, "seeded", sid, "meta.json")))
+        if meta.get("not_detected_by_design"):
+            results[sid] = {"property": prop, "not_detected_by_design": meta["not_detected_by_design"][:300]}
+            continue
         if meta.get("obsolete_since"):
             results[sid] = {"property": prop, "obsolete_since": meta["obsolete_since"], "note": meta.get("obsolete_note", "")[:200]}
             continue
